@@ -22,12 +22,14 @@ def universe(obstacle, ups=6):
     # A, B share s.ts; C (sub/C.ts) depends on A; E lives above the export directory
     up = '../' * (ups if obstacle == 'dotdot' else 0)
     return [TypeDef('A', 's.ts', [], '{ a: number, }'), TypeDef('B', 's.ts', [], 'string'), TypeDef('C', 'sub/C.ts', [0], '{ a: A, }'),
-            TypeDef('E', up + 'E.ts', [0], 'A'), TypeDef('D', None)]
+            TypeDef('E', up + 'E.ts', [0], 'A'), TypeDef('D', None),
+            # F's first dependency (C) can be obstructed while its second one (A) exports fine afterwards
+            TypeDef('F', 'F.ts', [2, 0], '{ c: C, a: A, }')]
 
 
 def target_of(obstacle, t):
     """which type's export the obstacle makes fail, and where the obstacle sits"""
-    return {'target_is_dir': BIND + ('/sub/C.ts' if t == 2 else '/s.ts'), 'parent_is_file': BIND + '/sub'}.get(obstacle)
+    return {'target_is_dir': BIND + ('/sub/C.ts' if t in (2, 5) else '/s.ts'), 'parent_is_file': BIND + '/sub'}.get(obstacle)
 
 
 def explore(item):
@@ -108,6 +110,8 @@ def explore(item):
                     must_fail = True
                     if obstacle == 'parent_is_file' and t != 2 and not (entry != 'export' and 2 in W.closure(tdefs, t)):
                         must_fail = False      # the obstacle is not on this call's way
+                    if obstacle == 'target_is_dir' and t == 5 and entry == 'export':
+                        must_fail = False      # export(F) alone does not touch C's file
                     if r is not None and r[0] == 'panic':
                         why = f'{entry}({name}) panics under obstacle {obstacle}: {r[1]}'
                     elif must_fail and r is None:
@@ -123,9 +127,12 @@ def explore(item):
                         changed = {f for f in set(before) | set(after) if before.get(f) != after.get(f)}
                         if changed - allowed:
                             why = f'failed {entry}({name}) modified other files: {sorted(changed - allowed)}'
-                        failed_file = W.norm_path(CWD, W.join(BIND, tdefs[t].out)) if tdefs[t].out else None
-                        if failed_file and obstacle in ('target_is_dir',) and name in reg_a.get(failed_file, set()) and name not in reg_b.get(failed_file, set()):
-                            why = f'failed {entry}({name}) was recorded as done in the registry'
+                        # the type whose own file is obstructed (for F it is its dependency C) must not be recorded as written
+                        ot = 2 if (t == 5 and obstacle == 'target_is_dir') else t
+                        failed_file = W.norm_path(CWD, W.join(BIND, tdefs[ot].out)) if tdefs[ot].out else None
+                        oname = tdefs[ot].name
+                        if failed_file and obstacle in ('target_is_dir',) and oname in reg_a.get(failed_file, set()) and oname not in reg_b.get(failed_file, set()):
+                            why = f'failed export of {oname} (through {entry}({name})) was recorded as done in the registry'
                 elif ev[0] == 'retry':
                     if ev[3] is not None:
                         why = f'retry of {ev[1]}({tdefs[ev[2]].name}) after removing the obstacle fails: {ev[3]}'
@@ -220,11 +227,11 @@ def main():
     nsteps = 2 if quick else 3
     for ob in OBSTACLES:
         for k in range(nsteps):
-            victims = {'target_is_dir': [0, 2], 'parent_is_file': [2, 0], 'dotdot': [3], 'not_exportable': [4]}[ob]
+            victims = {'target_is_dir': [0, 2, 5], 'parent_is_file': [2, 0, 5], 'dotdot': [3], 'not_exportable': [4]}[ob]
             for v in victims:
                 for ups in ([3, 4, 6] if ob == 'dotdot' else [0]):
                     items.append((ob, nsteps, k, v, ups))
-    rep.bounds = {'universe': 'A, B -> s.ts; C -> sub/C.ts (depends on A); E -> (../)^n E.ts with n in {depth+1, depth+2, depth+4} under the `dotdot` obstacle; D not exportable',
+    rep.bounds = {'universe': 'A, B -> s.ts; C -> sub/C.ts (depends on A); F -> F.ts (depends on C, then A); E -> (../)^n E.ts with n in {depth+1, depth+2, depth+4} under the `dotdot` obstacle; D not exportable',
                   'history_length': nsteps, 'entry_points': ENTRIES, 'obstacles': OBSTACLES,
                   'fault_position': 'every step', 'other_steps': 'symbolic entry point x type in {A, B, C}', 'cells': len(items)}
     rep.outside += ['I/O errors in the middle of a write (not part of the statement)', 'permission errors', 'more than one obstacle per history']
